@@ -12,7 +12,7 @@
 (* multi-index, J the column multi-index.  For r0 = rN = 1 this is exactly *)
 (* TT.full().flatten() == TT.matricize().flatten().                        *)
 (***************************************************************************)
-EXTENDS Integers, Sequences, FiniteSets, TLC
+EXTENDS Integers, Sequences, FiniteSets, TLC, Salt
 
 \* ------------------------------------------------------------------ numbers
 CZ == <<0, 0>>
@@ -140,7 +140,8 @@ FullOf(cores) ==
 \* ------------------------------------------------------ deterministic fills
 \* small integers in -3..3, sign-changing, position dependent
 Hash(seed, k, a, i, j, b) ==
-    (seed * 31 + k * 17 + a * 7 + i * 3 + j * 5 + b * 11 + a * i + b * j + k * b * 2 + seed * a) % 7
+    LET s == seed + SaltValue
+    IN  (s * 31 + k * 17 + a * 7 + i * 3 + j * 5 + b * 11 + a * i + b * j + k * b * 2 + s * a) % 7
 
 \* kind: "real" | "complex" | "pos" (non-negative real) | "def"/"cdef" (rank deficient:
 \*        does not depend on the right rank index) | "zero"/"zmid"/"zfirst" (zero cores)
